@@ -179,6 +179,37 @@ func zzTxLargeAppDataOnlyCiphertext() {
 	zzsymAssert(zzsymEqBytes(w[:64], o[:64]) && zzsymEqBytes(w[len(w)-64:], o[len(o)-64:]), "large_datagram_is_exactly_cipher_output")
 }
 
+// Close and the secrets other holders still reference. The master secret of a DTLS 1.2 connection is the very slice
+// the flight handlers handed to SessionStore.Set (the adapter is transparent, C14 zzStoreAdapterIsTransparent) and the
+// one ConnectionState() exported: an in-memory store and an exported State keep referring to it. Closing the
+// connection (established or not, as client or server) leaves those bytes untouched - "zeroize on Close" would leave
+// a still-valid session id keyed with 48 zero bytes in the store, and the next resumption's keys and exporter values
+// computable from the hello randoms. Arbitrary 48-byte secret.
+//
+//symgo:entry covers=closed_established,closed_before_establishment
+func zzCloseLeavesSharedSecretsAlone() {
+	suite, nw := &zzTxSuite{}, &zzTxNet{}
+	c := zzTxConn(suite, nw)
+	c.cancelHandshaker, c.cancelHandshakeReader = func() {}, func() {}
+	st, ok := c.state.(*dtlsstate.State12)
+	zzsymAssert(ok, "harness_state12")
+	st.IsClient = zzsymChoice("client", 2) == 1
+	secret := zzsymBytes("master_secret", 48)
+	st.MasterSecret = secret
+	st.PreMasterSecret = zzsymBytes("premaster_secret", 4)
+	held := st.MasterSecret // what the session store / an exported State still hold
+	snapshot := append([]byte{}, secret...)
+	if zzsymChoice("established", 2) == 1 {
+		dtlsstate.CommonState(c.state).SetLocalEpoch(1)
+		dtlshandshake.ZZMarkEstablished(c.handshakeEstablished)
+		zzsymCover("closed_established")
+	} else {
+		zzsymCover("closed_before_establishment")
+	}
+	_ = c.Close()
+	zzsymAssert(zzsymEqBytes(held, snapshot), "close_leaves_the_stored_master_secret_untouched")
+}
+
 // Alerts: notify() encrypts iff the handshake is established; an unencrypted alert (handshake not complete) carries
 // only the two alert bytes, never application data; an established connection's alert leaves only as cipher output.
 //
